@@ -154,6 +154,7 @@ static void *worker_main(void *p) {
             Shared &sh = (*w.shared)[o.a % w.shared->size()];
             int want = sh.g.k * ref::word_bytes(sh.g);
             if (liberasurecode_get_minimum_encode_size(sh.desc) != want) w.err = "shared size query wrong";
+            if (liberasurecode_backend_available((unsigned)sh.g.backend) <= 0) w.err = "backend_available says an installed back end (with live instances) is not available";
             if (liberasurecode_get_fragment_size(sh.desc, 1000) <= 0 || liberasurecode_get_aligned_data_size(sh.desc, 1000) <= 0) w.err = "shared size query failed";
             ExactBuf fb(sh.s.frags[(o.b & 0xff) % sh.g.n()]);
             fragment_metadata_t md;
